@@ -10,6 +10,7 @@
 //	                                       | (<expr>) | <expr> (+|-|*|/|%|<<|>>) <expr>
 //	str    var NAME = <any expression containing exactly one string literal>  ->  big-endian integer of its bytes
 //	                   (new(felt.Felt).SetBytes([]byte("invoke")), felt.NewFromBytes[felt.Felt]([]byte(`X`)), ...)
+//	fnstr  the only string literal inside the body of func/method NAME  ->  big-endian integer of its bytes
 //	field  the integer value of the key NAME in a composite literal of the file (cbor.DecOptions{MaxArrayElements: n})
 //	bits   type NAME <unsigned integer type>  ->  its width in bits on the 64-bit targets juno supports (uint = 64)
 //	func   func NAME(p T) T { straight-line unsigned arithmetic }  ->  a Gallina function N -> N with the uint64
@@ -65,6 +66,7 @@ var specs = []spec{
 	{"deprecatedstate_leafVersion", "core/deprecatedstate/state.go", "leafVersion", "str"},
 	{"state_stateVersion0", "core/state/state.go", "stateVersion0", "str"},
 	{"state_leafVersion0", "core/state/state.go", "leafVersion0", "str"},
+	{"core_contractClassVersionPrefix", "core/class.go", "SierraClass.Hash", "fnstr"},
 	{"types_VotingPower_bits", "consensus/types/state.go", "VotingPower", "bits"},
 	{"votecounter_f", "consensus/votecounter/vote_counter.go", "f", "func"},
 	{"votecounter_q", "consensus/votecounter/vote_counter.go", "q", "func"},
@@ -209,6 +211,37 @@ func value(repo string, s spec) (*big.Int, string, error) {
 			return nil, "", fmt.Errorf("initialiser of %s holds %d string literals, want exactly 1", s.ident, len(ls))
 		}
 		return new(big.Int).SetBytes([]byte(ls[0])), ls[0], nil
+	case "fnstr":
+		recv, name, _ := strings.Cut(s.ident, ".")
+		if name == "" {
+			recv, name = "", recv
+		}
+		for _, d := range fi.f.Decls {
+			fd, ok := d.(*ast.FuncDecl)
+			if !ok || fd.Name.Name != name || fd.Body == nil {
+				continue
+			}
+			if recv != "" {
+				if fd.Recv == nil || len(fd.Recv.List) != 1 {
+					continue
+				}
+				t := fd.Recv.List[0].Type
+				if st, ok := t.(*ast.StarExpr); ok {
+					t = st.X
+				}
+				if id, ok := t.(*ast.Ident); !ok || id.Name != recv {
+					continue
+				}
+			} else if fd.Recv != nil {
+				continue
+			}
+			ls := stringLits(fd.Body)
+			if len(ls) != 1 {
+				return nil, "", fmt.Errorf("body of %s holds %d string literals, want exactly 1", s.ident, len(ls))
+			}
+			return new(big.Int).SetBytes([]byte(ls[0])), ls[0], nil
+		}
+		return nil, "", fmt.Errorf("no func %s", s.ident)
 	case "field":
 		var found []*big.Int
 		var ferr error
